@@ -32,7 +32,8 @@ def jobs(tier):
     quick = [("construct", [[0, 0]], True), ("construct", [[0, 1], [0, 1]], False), ("construct", [[1, 1], [1, 1]], True),
              ("construct", [[0, 0], [0, 0], [0, 0]], False),
              ("incremental", [[0, 1], [0, 0]], False), ("incremental", [[0, 0], [0, 0]], True),
-             ("interleaved", [[0, 0], [0, 0]], False), ("interleaved", [[0, 1], [0, 0]], True)]
+             ("interleaved", [[0, 0], [0, 0]], False), ("interleaved", [[0, 1], [0, 0]], True),
+             ("incremental", [[0, 0], [0, 1]], False)]
     for fn, sh, sd in quick:
         J(fn, sh, sd)
     if tier == "thorough":
